@@ -7,7 +7,7 @@ vector) and checks the observed `==`, hash equality, `extends`, `get`, conversio
 on the maps, and the observed comparator results against truth tables / sizes / order laws.
 -/
 namespace B.Drive.C18
-open B B.Drive
+open B B.Drive B.Count B.Val B.Cmp
 
 inductive HOp where
   | set (x : Nat) (b : Bool)
